@@ -220,6 +220,10 @@ def run(R):
     # ---- CONVERT / DEFAULT in the Json arm
     cpe = R.need_fn("sqlgrep::data_model::ColumnParsing::extract")
     gv = [c for c in cpe.calls if short(c.name) == "sqlgrep::data_model::JsonAccess::get_value"]
+    if not gv:
+        # the walk inside a combinator closure (`document.as_ref().and_then(|d| access.get_value(d))`): closures spliced in
+        cpe = PR.desugared(P, cpe)
+        gv = [c for c in cpe.calls if short(c.name) == "sqlgrep::data_model::JsonAccess::get_value"]
     if len(gv) != 1:
         R.violation("C02.convert", "extract|get_value", "expected one JsonAccess::get_value call in ColumnParsing::extract", [cpe.loc()])
     else:
